@@ -378,7 +378,7 @@ def run(ctx):
                         check_case(ctx, gen_case(rng, quick, {"axis": axis, "k": k, "mode": mode, "overlap": True}))
     budget = 38 if quick else 540
     n = 0
-    limit = 2500 if quick else 120000
+    limit = 5000 if quick else 120000
     while n < limit and ctx.time_left(budget) > 0:
         check_case(ctx, gen_case(rng, quick))
         n += 1
